@@ -94,7 +94,7 @@ Lemma step_until_some : forall a t l,
   | inr o => o = Some (N.max t l)
   end.
 Proof.
-  intros [d ok|] t l; cbn; [|reflexivity].
+  intros [d ok| |g] t l; cbn; [|reflexivity|reflexivity].
   destruct (t + d <=? l) eqn:E; [apply N.leb_le in E; exact E|reflexivity].
 Qed.
 
@@ -124,7 +124,7 @@ Qed.
 
 Lemma ask_lt : forall a t tc u ok, ask a t tc = Some (u, ok) -> u < tc.
 Proof.
-  intros [d o|] t tc u ok; unfold ask; destruct (tc <=? t); try discriminate.
+  intros [d o| |g] t tc u ok; unfold ask; destruct (tc <=? t); try discriminate.
   destruct (t + d <? tc) eqn:E; [|discriminate]. intros H. inversion H; subst. apply N.ltb_lt. exact E.
 Qed.
 
@@ -161,10 +161,10 @@ Qed.
 (* THE BOUND FOR ALL SCRIPTS: with a read deadline and the forced Close after a failed Shutdown, a probe
    returns within the allowance — whatever the host answers, whenever, and whatever it sends unasked *)
 Lemma script_time_bounded : forall tm r s,
-  read_deadline tm = Some r -> force_close tm = true ->
+  read_deadline tm = Some r -> force_close tm = true -> idle_deadline tm = false ->
   exists d, o_time (script_outcome tm s) = Some d /\ d <= allowance tm.
 Proof.
-  intros tm r s Hr Hf. unfold allowance, script_outcome. rewrite Hr, Hf.
+  intros tm r s Hr Hf Hi. unfold allowance, script_outcome. rewrite Hr, Hf, Hi. cbn [andb].
   destruct (s_dial s) as [| |d0]; cbn [o_time].
   - exists 0. split; [reflexivity|lia].
   - exists (dial tm). split; [reflexivity|lia].
@@ -193,10 +193,10 @@ Definition chatty_refuser (p : N) : script :=
             (Ans 0 false) false false None [] (Some p).
 
 Lemma chatty_refuser_blocks : forall tm r p,
-  read_deadline tm = Some r -> force_close tm = false -> 0 < send_timeout tm -> 0 < p -> p <= r ->
+  read_deadline tm = Some r -> force_close tm = false -> idle_deadline tm = false -> 0 < send_timeout tm -> 0 < p -> p <= r ->
   o_time (script_outcome tm (chatty_refuser p)) = None.
 Proof.
-  intros tm r p Hr Hf Hs Hp Hpr. unfold script_outcome. rewrite Hr, Hf. unfold chatty_refuser. cbn [s_dial].
+  intros tm r p Hr Hf Hi Hs Hp Hpr. unfold script_outcome. rewrite Hr, Hf, Hi. unfold chatty_refuser. cbn [s_dial andb].
   assert (E0 : dial tm <? 0 = false) by (apply N.ltb_ge; lia). rewrite E0.
   assert (E1 : 0 <=? r = true) by (apply N.leb_le; lia).
   assert (E2 : send_timeout tm <=? 0 = false) by (apply N.leb_gt; exact Hs).
@@ -208,6 +208,47 @@ Proof.
                          step_until opt_add opt_min opt_le opt_ltb e_close e_rclosed e_arrivals andb];
                     rewrite ?N.add_0_l, ?N.add_0_r, ?E1, ?E2, ?E3, ?E4, ?E5)).
   reflexivity.
+Qed.
+
+(* WITH A DEADLINE THAT BOUNDS IDLE TIME ONLY (re-armed before every read): a host that answers the first message and
+   the negotiation and then trickles its GET_READER_CONFIG reply, one byte every g <= r, holds the probe for ever —
+   forced Close or not: the read loop sits inside the message and does not look at the client being closed *)
+Lemma opt_ltb_zero : forall a, opt_ltb a 0 = false.
+Proof. intros [l|]; cbn; [apply N.ltb_ge; lia|reflexivity]. Qed.
+
+Definition trickler (g : N) : script :=
+  mk_script (DialAccept 0) (Ans 0 true) (Ans 0 true) None (Trickle g) (Some (0, [0; 22; 37])) (Ans 0 true) None
+            (Ans 0 true) false true None [] None.
+
+Lemma trickler_blocks : forall tm r g,
+  read_deadline tm = Some r -> idle_deadline tm = true -> 0 < send_timeout tm -> 0 < g -> g <= r ->
+  o_time (script_outcome tm (trickler g)) = None.
+Proof.
+  intros tm r g Hr Hi Hs Hg Hgr. unfold script_outcome. rewrite Hr, Hi. unfold trickler. cbn [s_dial andb].
+  assert (E0 : dial tm <? 0 = false) by (apply N.ltb_ge; lia). rewrite E0.
+  assert (E1 : 0 <=? r = true) by (apply N.leb_le; lia).
+  assert (E2 : send_timeout tm <=? 0 = false) by (apply N.leb_gt; exact Hs).
+  assert (E4 : 0 <? g = true) by (apply N.ltb_lt; exact Hg).
+  assert (E5 : g <=? r = true) by (apply N.leb_le; exact Hgr).
+  assert (E7 : 0 <=? N.min r (send_timeout tm) = true) by (apply N.leb_le; lia).
+  unfold connect_phase, exchange_sent, sent_at, fast_trickle.
+  destruct (force_close tm);
+  repeat (progress (cbn [ask s_hello s_version s_setver s_config s_caps s_close s_close_other s_chat s_period s_hangup
+                         step_until opt_add opt_min opt_le andb negb app existsb fst snd];
+                    rewrite ?N.add_0_l, ?N.add_0_r, ?E1, ?E2, ?E4, ?E5, ?E7, ?opt_ltb_zero));
+  reflexivity.
+Qed.
+
+Lemma run_time_refuted_idle_deadline : forall tm r dl, read_deadline tm = Some r -> idle_deadline tm = true ->
+  0 < r -> 0 < send_timeout tm -> 0 < dl ->
+  exists m port hosts work, run_time tm dl m port hosts work = None.
+Proof.
+  intros tm r dl Hr Hi Hr0 Hs Hdl.
+  exists (fun _ => None), 5084, (fun _ => Script (trickler 1)), [[1]].
+  unfold run_time, worker_run. cbn [fold_left]. unfold worker_step at 1. cbn [w_init stopped clock].
+  assert (E : dl <=? 0 = false) by (apply N.leb_gt; exact Hdl).
+  rewrite E. cbn [skip]. unfold probe_time.
+  rewrite (trickler_blocks tm r 1 Hr Hi Hs) by lia. reflexivity.
 Qed.
 
 (* ---------- worker invariants ---------- *)
@@ -327,7 +368,7 @@ Qed.
 
 Lemma ask_ans : forall a t tc u ok, ask a t tc = Some (u, ok) -> exists d, a = Ans d ok.
 Proof.
-  intros [d o|] t tc u ok; unfold ask; destruct (tc <=? t); try discriminate.
+  intros [d o| |g] t tc u ok; unfold ask; destruct (tc <=? t); try discriminate.
   destruct (t + d <? tc); [|discriminate]. intros H. inversion H; subst. exists d. reflexivity.
 Qed.
 Lemma shutdown_ident : forall fc s t tc arr gi gc, e_ident (shutdown fc s t tc arr gi gc) = gi.
@@ -351,8 +392,11 @@ Proof.
   intros tm s i. unfold script_outcome.
   destruct (s_dial s) as [| |d0]; cbn [o_info]; try discriminate.
   destruct (dial tm <? d0); cbn [o_info]; try discriminate.
+  destruct (idle_deadline tm && fast_trickle _ (s_hello s)); cbn [o_info]; try discriminate.
   destruct (connect_phase _ _ _ _ _) as [t|t2]; cbn [o_info]; try discriminate.
   set (tc := d0 + send_timeout tm).
+  match goal with |- context [if ?c then {| o_time := opt_add d0 (s_hangup s); o_info := None |} else _] => destruct c end;
+    cbn [o_info]; try discriminate.
   destruct (e_close (exchange (force_close tm) s t2 tc)) as [x|]; cbn [o_info]; try discriminate.
   destruct (opt_ltb _ x); cbn [o_info]; try discriminate.
   destruct (e_ident (exchange (force_close tm) s t2 tc)) eqn:Ei; try discriminate.
@@ -390,6 +434,19 @@ Proof.
     exists c, t, rid. split; [tauto|exact H3].
 Qed.
 
+(* what a run reports about a host is what an undisturbed probe of that host returns: the run's deadline (and the
+   other hosts, the registered devices, the distribution over workers) decide WHETHER the host is probed, never WHAT
+   is reported about it *)
+Lemma reported_is_probe_result : forall tm dl m port hosts work a i,
+  In (a, i) (run_reported tm dl m port hosts work) -> probe_result tm (hosts a) = Some i.
+Proof.
+  intros tm dl m port hosts work a i Hin.
+  unfold run_reported in Hin. apply in_flat_map in Hin. destruct Hin as (addrs & Hw & Hin).
+  assert (R : reported_ok tm m port hosts ([] ++ addrs) (worker_run tm dl m port hosts addrs 0)).
+  { unfold worker_run. apply run_reported_ok. intros x y []. }
+  destruct (R a i Hin) as (_ & _ & H3). exact H3.
+Qed.
+
 Lemma fold_max_opt_bounded : forall (l : list (option N)) acc B,
   (exists t, acc = Some t /\ t <= B) ->
   (forall o, In o l -> exists t, o = Some t /\ t <= B) ->
@@ -418,15 +475,16 @@ Proof.
     exists 0. split; [reflexivity|lia].
 Qed.
 
-Lemma probe_time_bounded : forall tm r, read_deadline tm = Some r -> force_close tm = true ->
+Lemma probe_time_bounded : forall tm r, read_deadline tm = Some r -> force_close tm = true -> idle_deadline tm = false ->
   forall b, exists d, probe_time tm b = Some d /\ d <= allowance tm.
 Proof.
-  intros tm r Hr Hf b. destruct b as [s| | | | | | | |].
-  1: exact (script_time_bounded tm r s Hr Hf).
+  intros tm r Hr Hf Hi b. destruct b as [s| | | | | | | |].
+  1: exact (script_time_bounded tm r s Hr Hf Hi).
   all: unfold allowance, probe_time, min_opt; rewrite Hr; eexists; (split; [reflexivity|]); lia.
 Qed.
 
-Lemma run_time_bounded : forall tm r dl m port hosts work, read_deadline tm = Some r -> force_close tm = true ->
+Lemma run_time_bounded : forall tm r dl m port hosts work,
+  read_deadline tm = Some r -> force_close tm = true -> idle_deadline tm = false ->
   exists t, run_time tm dl m port hosts work = Some t /\ t <= dl + allowance tm.
 Proof.
   intros. apply run_time_bounded_gen. apply (probe_time_bounded tm r); assumption.
@@ -435,15 +493,15 @@ Qed.
 (* with a read deadline but WITHOUT the forced Close after a failed Shutdown one chatty host that refuses
    CLOSE_CONNECTION makes the run never return *)
 Lemma run_time_refuted_no_forced_close : forall tm r dl, read_deadline tm = Some r -> force_close tm = false ->
-  0 < r -> 0 < send_timeout tm -> 0 < dl ->
+  idle_deadline tm = false -> 0 < r -> 0 < send_timeout tm -> 0 < dl ->
   exists m port hosts work, run_time tm dl m port hosts work = None.
 Proof.
-  intros tm r dl Hr Hf Hr0 Hs Hdl.
+  intros tm r dl Hr Hf Hi Hr0 Hs Hdl.
   exists (fun _ => None), 5084, (fun _ => Script (chatty_refuser 1)), [[1]].
   unfold run_time, worker_run. cbn [fold_left]. unfold worker_step at 1. cbn [w_init stopped clock].
   assert (E : dl <=? 0 = false) by (apply N.leb_gt; exact Hdl).
   rewrite E. cbn [skip]. unfold probe_time.
-  rewrite (chatty_refuser_blocks tm r 1 Hr Hf Hs) by lia. reflexivity.
+  rewrite (chatty_refuser_blocks tm r 1 Hr Hf Hi Hs) by lia. reflexivity.
 Qed.
 
 (* without a read deadline (the code as it is) one silent host that is not skipped blocks the run *)
